@@ -55,3 +55,31 @@ def run_regress(pid, tier, replay=None):
     with open(files[0]) as fh:
         ck.sample(json.loads(fh.readline()))
     return ck.finish(exhaustive=not ck.violations)
+
+
+def run_polyfit(pid, tier, replay=None):
+    ck = Check(pid, tier, "model_checking")
+    sc = ck.scratch
+    res = tlc(os.path.join(SPECDIR, "PolyFitMC.tla"), os.path.join(SPECDIR, "PolyFitMC.cfg"), sc, timeout=900, capture_prefix="1616161", stdout_path=sc.path("pf.out"), workers=8)
+    tlc_must_pass(res, "PolyFitMC")
+    ck.add_tlc(res, "enumeration_and_symmetry")
+    files = []
+    for real in (8, 4, 16):
+        exe = vlib.cc_build(sc.path("pfit_h%d" % real), [os.path.join(vlib.HARNESS, "pfit_h.c")] + vlib.repo_src("poly.c", "math.c", "a.c"), sc, real=real)
+        o = sc.path("pf%d.ndjson" % real)
+        r = vlib.run_harness([exe, sc.path("pf.out"), o], timeout=600)
+        if r.returncode != 0:
+            if r.returncode in (97, 98, 99, -6, -11) or "Sanitizer" in (r.stderr or ""):
+                ck.violation("crash:polyfit", {"what": "sanitizer abort in a_poly_xTx / a_poly_xTy (real width %d)" % real, "stderr": (r.stderr or "")[-1500:]})
+                continue
+            raise Broken("polyfit harness failed: %s" % (r.stderr or "")[-800:])
+        files += vlib.split_file_lines(o, 5, sc.dir, "pfb%d" % real)
+    nev, bad = vlib.validate_collect(os.path.join(SPECDIR, "PolyFitTrace.tla"), os.path.join(SPECDIR, "PolyFitTrace.cfg"), files, sc)
+    for f, idx, ev in bad:
+        ck.violation("trace:polyfit", {"what": "TLC rejected: not the sums of powers the normal equations need, or a write outside the result", "event": ev})
+    ck.cov["evaluations"] = nev + len(bad); ck.cov["traces_validated_against_impl"] = nev; ck.cov["distinct_nontrivial"] = nev
+    ck.cov["rule"] = "one case = (points x, values y, number of coefficients n), 0-3 points, n = 1..3, three real widths"
+    ck.assumptions.append("extension beyond the listed properties: a_poly_xTx / a_poly_xTy on integer data (exact), empty data included")
+    with open(files[0]) as fh:
+        ck.sample(json.loads(fh.readline()))
+    return ck.finish(exhaustive=not ck.violations)
